@@ -246,22 +246,37 @@ func c17R2(a *A) {
 					continue
 				}
 				a.touch(f)
-				ok := true
-				instrs(f, func(in ssa.Instruction) {
-					switch x := in.(type) {
-					case *ssa.IndexAddr, *ssa.Slice, *ssa.Index:
-						ok = false
-					case *ssa.Call:
-						if cal := x.Common().StaticCallee(); cal == nil || cal.Name() != "Type" {
-							ok = false
-						}
-					}
-				})
+				ok := onlyReadsType(f, 0)
 				a.check(ok, rule, "predicate@"+tn+"."+m.Name(), w.pos(f.Pos()), "reads only the type byte via Type()", "predicate touches the buffer other than through Type()")
 			}
 		}
 	}
 	a.atLeast(rule, "bound@", 6)
+}
+
+// onlyReadsType: the function touches the event only through Type() (directly or via in-package helpers that do the same).
+func onlyReadsType(f *ssa.Function, depth int) bool {
+	ok := true
+	instrs(f, func(in ssa.Instruction) {
+		switch x := in.(type) {
+		case *ssa.IndexAddr, *ssa.Slice, *ssa.Index:
+			ok = false
+		case *ssa.Call:
+			cal := x.Common().StaticCallee()
+			switch {
+			case cal == nil:
+				ok = false
+			case cal.Name() == "Type":
+			case cal.Pkg == f.Pkg && cal.Blocks != nil && depth < 2 && cal != f:
+				if !onlyReadsType(cal, depth+1) {
+					ok = false
+				}
+			default:
+				ok = false
+			}
+		}
+	})
+	return ok
 }
 
 // R3: gate first.
